@@ -1,5 +1,6 @@
 """C17 - persistent parameters: crash-atomic, retried after failure, tolerant load"""
 from sa.core import rule, prop_info
+from sa.cfg import CFG
 from sa.lib import *  # noqa: F401,F403
 from sa.lib import attr_stores, func_calls, enclosing_tries, handler_catches_all, handler_reraises, origins
 from sa.model import AnchorMissing, const_str, kwarg
@@ -352,13 +353,19 @@ def given_flag_is_set_for_every_configured_value(ctx):
     stores = [(t, v, s) for t, v, s in attr_stores(hw.node) if t.attr == 'given' and isinstance(v, ast.Constant) and v.value is True]
     if not stores:
         raise AnchorMissing('pobj.given = True not found in Module._handle_writes', violation=f'{hw.qualname}:given flag set for explicit values')
-    for t, v, s in stores:
-        ifs = [a for a in ancestors(s) if isinstance(a, ast.If)]
-        t = src(ifs[0].test) if ifs else ''
-        in_else = bool(ifs) and any(s is x for st in ifs[0].orelse for x in ast.walk(st))
-        ok = len(ifs) == 1 and ((t.endswith('.value is None') and in_else) or (t.endswith('.value is not None') and not in_else))
-        ctx.check(ok, f'{hw.qualname}:given flag set for explicit values', s, 'set unconditionally in the explicit-value branch',
-                  f'`{src(s)}` is nested under {[src(a.test) for a in ifs]}: a persistent parameter without write method that is given in the '
+    cfg = CFG(hw.node, m, hw.module)
+    recv = {src(t.value) for t, v, s in stores}
+    sids = [i for t, v, s in stores for i in cfg.node_of(s)]
+    for r in sorted(recv):
+        # with a value given (`<pobj>.value is None` false) no normal way through the method avoids the store
+        env = {f'{r}.value is None': False}
+        deciding = [(t, eval_under(t.ast, env, hw.node)) for t in cfg.nodes if t.kind == 'test' and not isinstance(t.ast, ast.stmt)]
+        deciding = [(t, k) for t, k in deciding if k is not None]
+        if not deciding:
+            raise AnchorMissing(f'test of `{r}.value is None` not found in Module._handle_writes')
+        ok = all(cfg.exit not in cfg.reach([t.id], avoid=[t.id] + sids, exc=False, labels={'T' if k else 'F'}) for t, k in deciding)
+        ctx.check(ok, f'{hw.qualname}:given flag set for explicit values', stores[0][2], 'set on every path with an explicit value',
+                  f'`{src(stores[0][2])}` is not reached on every path on which `{r}.value` is set: a persistent parameter without write method that is given in the '
                   'configuration is not marked as given - the stored value silently overrides the configured one at start-up', hw)
 
 
@@ -399,3 +406,51 @@ def temporary_file_is_private_to_the_module(ctx):
     ctx.check(ok, f'{f.qualname}:temporary file derived from the module own file name', ren, f'`{txt[:100]}`',
               f'the temporary file `{src(srcarg)}` = {texts} does not depend on the module (its persistentFile / name): all persistent modules of the node write '
               'through the same path, overlapping saves corrupt each other snapshot', f)
+
+
+@rule('C17.R6', min_instances=1)
+def stored_values_are_tested_for_presence_not_truth(ctx):
+    """restore paths (PersistentMixin.__init__ / loadParameters): whether there IS a stored value for a parameter is asked by
+    membership or identity (`pname in loaded`, `is not MISSING`), never by the truth value of the stored value - False, 0, 0.0,
+    '' and empty arrays are values a parameter can have been saved with; treated as missing they come back as the default and
+    the closing save overwrites the good file"""
+    m = ctx.m
+    ci = m.cls(PM)
+    n = 0
+    for name in ('__init__', 'loadParameters'):
+        f = ci.methods.get(name)
+        if f is None:
+            continue
+        # the dict of stored values: the result of loadPersistentData(), or a local it was bound to
+        tables = {t.id for x in body_walk(f.node) if isinstance(x, ast.Assign) and isinstance(x.value, ast.Call) and call_attr(x.value) == 'loadPersistentData'
+                  for t in x.targets if isinstance(t, ast.Name)}
+        if not tables:
+            continue
+        ctx.analysed(f)
+
+        def from_table(e):
+            return (isinstance(e, ast.Subscript) and isinstance(e.value, ast.Name) and e.value.id in tables) or \
+                (isinstance(e, ast.Call) and call_attr(e) in ('get', 'pop') and isinstance(e.func.value, ast.Name) and e.func.value.id in tables)
+        carriers = {x.targets[0].id for x in body_walk(f.node) if isinstance(x, ast.Assign) and len(x.targets) == 1 and isinstance(x.targets[0], ast.Name)
+                    and from_table(x.value)}
+        cfg = CFG(f.node, m, f.module)
+        for t in cfg.nodes:
+            if t.kind != 'test' or isinstance(t.ast, ast.stmt):
+                continue
+            for atom, tv in facts_on_side(t.ast, True) + facts_on_side(t.ast, False):
+                if from_table(atom) or (isinstance(atom, ast.Name) and atom.id in carriers):
+                    n += 1
+                    ctx.bad(f'{f.qualname}:presence of a stored value is not decided by its truth', t.ast,
+                            f'`{src(t.ast)}` takes a stored value that is falsy (False, 0, 0.0, \'\', an empty array, the enum member 0) for "nothing stored": '
+                            'the parameter comes back as its default, the default is queued for the hardware and the save at the end of start-up overwrites the file', f)
+        for x in body_walk(f.node):
+            if isinstance(x, ast.BoolOp) and any(from_table(v) or (isinstance(v, ast.Name) and v.id in carriers) for v in x.values[:-1]):
+                n += 1
+                ctx.bad(f'{f.qualname}:presence of a stored value is not decided by its truth', x,
+                        f'`{src(x)}` replaces a falsy stored value as if nothing was stored', f)
+        uses = [x for x in body_walk(f.node) if from_table(x)]
+        if uses:
+            n += 1
+            ctx.ok(f'{f.qualname}:stored values are read', uses[0], f'{len(uses)} reads of the stored values, none decided by truth value', f)
+    if not n:
+        raise AnchorMissing('no read of the stored values (loadPersistentData) found in PersistentMixin.__init__ / loadParameters')
